@@ -763,28 +763,38 @@ class CountControlConstructionToken(CompositeBaseToken):
          BracketFinishToken]
     ]
 
+    @staticmethod
+    def _lone_operand(expression):
+        # the operand of an argument that is nothing but one operand (a reference or a literal), else None
+        return expression.value[0] if len(expression.value) == 1 and isinstance(expression.value[0], OperandToken) \
+            else None
+
     @property
     def matrices(self) -> list[MatrixOfCellIdentifiersToken]:
         return [
-            expression.left_operand.matrix
+            self._lone_operand(expression).matrix
             for expression in self.value[2].expressions
-            if hasattr(expression.left_operand, 'matrix') and expression.left_operand.matrix is not None
+            if self._lone_operand(expression) is not None and self._lone_operand(expression).matrix is not None
         ]
 
     @property
     def arg_cells(self) -> list[CellIdentifierToken]:
         return [
-            expression.left_operand.value[0]
+            self._lone_operand(expression).value[0]
             for expression in self.value[2].expressions
-            if isinstance(expression.left_operand.value[0], CellIdentifierToken)
+            if self._lone_operand(expression) is not None
+            and isinstance(self._lone_operand(expression).value[0], CellIdentifierToken)
         ]
 
     @property
     def expressions(self):
+        # every other argument (literal, signed or bracketed value, arithmetic, function call) is a scalar argument
         return [
             expression
             for expression in self.value[2].expressions
-            if isinstance(expression.left_operand.value[0], LiteralToken)
+            if self._lone_operand(expression) is None
+            or not (self._lone_operand(expression).matrix is not None
+                    or isinstance(self._lone_operand(expression).value[0], CellIdentifierToken))
         ]
 
 
